@@ -49,6 +49,7 @@ class Mon:
         self.ctx = yaql.create_context()
         self.overloads = cat.build(self.ctx)
         self.family_ctx = None
+        self.seen_invalid = set()
         counts = {}
         for o in self.overloads:
             counts[o.name] = counts.get(o.name, 0) + 1
@@ -284,8 +285,39 @@ def arg_tuples(o, rng, count):
     return out
 
 
+def invalid_slots(mon, o, states, extra, rec):
+    """an empty slot for a parameter WITHOUT a default is an error in every spelling - and stays without
+    consequence for the valid spellings of the same shape that follow it"""
+    n = len(o.params)
+    given = [s[0] if isinstance(s, tuple) else s for s in states]
+    if extra or any(g is OMIT for g in given) or n < 2:
+        return
+    for form in ('function', 'method'):
+        if (form == 'function' and not o.is_function) or (form == 'method' and not o.is_method):
+            continue
+        for i, prm in enumerate(o.params):
+            if prm.has_default or (form == 'method' and i == 0) or i == n - 1:
+                continue        # a trailing empty slot is simply a shorter call
+            pos = list(given)
+            pos[i] = cat.SKIP
+            r = cat.render(o, pos, {}, form=form)
+            if r is None:
+                continue
+            text, vars_ = r
+            out = mon.run(text, vars_)
+            rec.count('spelling.empty-slot-for-required-parameter')
+            rec.case((text, 'invalid-slot'), nontrivial=True)
+            if out[0] == 'value':
+                rec.violation('empty-slot-for-required-parameter-accepted:%s' % o.ident,
+                              '%s leaves the slot of %r empty although it has no default, and gives %s' % (text, prm.pyname, short(out)),
+                              {'kind': 'group', 'ident': o.ident, 'base': text, 'text': text})
+
+
 def check_group(mon, o, states, extra, rec):
     results = []
+    if o.ident not in mon.seen_invalid and o.single_name:
+        mon.seen_invalid.add(o.ident)
+        invalid_slots(mon, o, states, extra, rec)
     for form in ('function', 'method'):
         if form == 'function' and not o.is_function:
             continue
